@@ -60,8 +60,25 @@ fn c05_shape(kind: u8, n_root: usize, adds: Option<&[u8]>, nested: bool, implied
     };
     let prefix = if kind == 2 { "c" } else { "f" };
     let ty = if kind == 3 {
-        let root = (0..n_root.max(1)).map(|_| (id("e"), None)).collect();
-        let ext = adds.map(|a| a.iter().map(|_| (id("e"), None)).collect());
+        // addition code 1 = addition with an explicit number *below* the root maximum (the last root item then carries an
+        // explicit number that leaves a gap, like X.680's own example `{a, b(3), ..., c(1)}`); explicit additions come
+        // first and ascend, identifier-only additions follow (X.680 20.4 / 20.6 keep that legal)
+        let n = n_root.max(1);
+        let gap = adds.is_some_and(|a| a.contains(&1)) && n >= 2;
+        let root: Vec<(String, Option<i64>)> = (0..n).map(|i| (id("e"), if gap && i + 1 == n { Some(n as i64 + 3) } else { None })).collect();
+        let mut next_explicit = n as i64 - 1;
+        let ext = adds.map(|a| {
+            a.iter()
+                .map(|k| {
+                    if *k == 1 && gap {
+                        next_explicit += 1;
+                        (id("e"), Some(next_explicit - 1))
+                    } else {
+                        (id("e"), None)
+                    }
+                })
+                .collect()
+        });
         Ty::plain(TyKind::Enumerated(EnumT { root, ext }))
     } else {
         let root: Vec<Comp> = (0..n_root.max(if kind == 2 { 1 } else { 0 })).map(|i| comp(&id(prefix), kind != 2 && i % 2 == 1)).collect();
@@ -131,13 +148,17 @@ fn c05_space(max_root: usize, max_adds: usize) -> Vec<(String, ModuleSet)> {
     }
     let mut v = vec![];
     for kind in 0..4u8 {
-        let alpha = if kind <= 1 { 5 } else { 1 };
+        let alpha = if kind <= 1 { 5 } else if kind == 3 { 2 } else { 1 };
         for n_root in 0..=max_root {
             let mut addss: Vec<Option<Vec<u8>>> = vec![None];
             for l in 0..=max_adds {
                 addss.extend(seqs(l, alpha).into_iter().map(Some));
             }
             for adds in &addss {
+                // ENUMERATED: explicitly numbered additions only as a prefix of the additions (keeps the input legal)
+                if kind == 3 && adds.as_ref().is_some_and(|a| a.windows(2).any(|w| w[0] == 0 && w[1] == 1)) {
+                    continue;
+                }
                 for nested in [false, true] {
                     for implied in [false, true] {
                         for tagging in [Tagging::Automatic, Tagging::Explicit] {
